@@ -180,12 +180,171 @@ def check_orders(spec, steps, stats, enum=True):
                 break
 
 
+# -- methods: stacked start= / end= forms and a return-only annotate, looked up on the class and on an instance
+
+def method_step_sets(spec):
+    poks = [p.name for p in spec if p.kind == POK]
+    dflt = [p.name for p in spec if p.kind == POK and p.default is not None]
+    out = []
+    for x in poks:
+        for y in poks:
+            if x != y:
+                out.append([('Ks', x), ('K', [y])])
+                out.append([('Pe', x), ('K', [y])])
+                out.append([('Ks', x), ('P', [y])])
+        out.append([('Ks', x), ('Nr', None)])
+        out.append([('Pe', x), ('Nr', None)])
+        out.append([('K', [x]), ('Nr', None)])
+        out.append([('K', [x]), ('Nr', None), ('N', None)])
+        if dflt:
+            out.append([('Pe', x), ('A', [])])
+            out.append([('Ks', x), ('A', [])])
+    if dflt:
+        out.append([('A', []), ('Nr', None)])
+    return out
+
+
+def ref_apply_m(spec_m, steps):
+    kwo, poso, ann, ret = set(), set(), False, False
+    for which, arg in steps:
+        cur = c12.expected(spec_m, kwo, poso)
+        if which == 'K':
+            kwo |= set(arg)
+        elif which == 'P':
+            poso |= set(arg)
+        elif which == 'Ks':
+            kwo |= set(c12.start_names(cur, arg))
+        elif which == 'Pe':
+            poso |= set(c12.end_names(cur, arg))
+        elif which == 'A':
+            kwo |= set(c12.auto_names(cur, arg))
+        elif which == 'Nr':
+            ret = True
+        else:
+            ann = True
+        c12.expected(spec_m, kwo, poso)
+    return frozenset(kwo), frozenset(poso), ann, ret
+
+
+def real_apply_m(f, spec_m, steps):
+    from sigtools import modifiers
+    g = f
+    for which, arg in steps:
+        if which == 'K':
+            g = modifiers.kwoargs(*arg)(g)
+        elif which == 'P':
+            g = modifiers.posoargs(*arg)(g)
+        elif which == 'Ks':
+            g = modifiers.kwoargs(start=arg)(g)
+        elif which == 'Pe':
+            g = modifiers.posoargs(end=arg)(g)
+        elif which == 'A':
+            g = modifiers.autokwoargs(exceptions=arg)(g) if arg else modifiers.autokwoargs(g)
+        elif which == 'Nr':
+            g = modifiers.annotate('R')(g)
+        else:
+            g = modifiers.annotate(**{p.name: 'ann_' + p.name for p in spec_m if p.kind not in (VP, VK) and p.name != 'self'})(g)
+    return g
+
+
+def check_orders_method(spec, steps, stats):
+    import sigtools
+    spec = c12.with_defaults(spec)
+    spec_m = (Par('self', PO if any(p.kind == PO for p in spec) else POK),) + tuple(spec)
+    admissible = []
+    for perm in itertools.permutations(steps):
+        try:
+            admissible.append((perm, ref_apply_m(spec_m, perm)))
+        except c12.Inadmissible:
+            pass
+    stats.cls('A/method/%d-admissible-orders' % min(len(admissible), 3))
+    case = {'part': 'A-method', 'spec': list(map(list, spec)), 'steps': [list(s) for s in steps]}
+    names = tuple(p.name for p in spec if p.kind in (PO, POK, KWO))[:3] + ('q',)
+    maxpos = cpbind.poscap(universe.spec_view(spec)) + 1
+    label = {'K': 'kwoargs', 'P': 'posoargs', 'Ks': 'kwoargs(start=)', 'Pe': 'posoargs(end=)', 'A': 'autokwoargs(exceptions=)', 'N': 'annotate(params)', 'Nr': 'annotate(return)'}
+    results = []
+    for perm, fin in admissible:
+        stats.case()
+        f = realfn.plain_function(spec_m, 'm', cache=False)
+        desc = ' then '.join('%s%s' % (label[w], a if a is not None else '') for w, a in perm)
+        try:
+            g = real_apply_m(f, spec_m, perm)
+        except ValueError as e:
+            stats.fail('C18/A/method/admissible-order-rejected', dict(case, order=[list(x) for x in perm]),
+                       'def m(%s): applying %s raised ValueError(%s) although every step is admissible in that order' % (universe.spec_text(spec_m), desc, e))
+            continue
+        K = type('K', (object,), {'m': g})
+        inst = K()
+        kwo, poso, ann, ret = fin
+        exp = c12.expected(spec_m, kwo, poso)
+        if ann:
+            exp = tuple(p._replace(ann=repr('ann_' + p.name)) if p.kind not in (VP, VK) and p.name != 'self' else p for p in exp)
+        obs = {}
+        bad = False
+        for form, getobj, want_ps in (('class', lambda: K.m, exp), ('instance', lambda: inst.m, exp[1:])):
+            try:
+                o = getobj()
+                sg = sigtools.signature(o)
+                si = inspect.signature(o)
+            except Exception as e:
+                first = 'self' in (kwo | poso)
+                stats.fail('C18/A/method/%saccess-raises-%s' % ('first-parameter-selected/' if first else '', type(e).__name__),
+                           dict(case, order=[list(x) for x in perm], form=form),
+                           'def m(%s): %s, then lookup on the %s raised %s: %s' % (universe.spec_text(spec_m), desc, form, type(e).__name__, e))
+                bad = True
+                break
+            want = (tuple(p for p in want_ps if p.kind != KWO), frozenset(p for p in want_ps if p.kind == KWO), repr('R') if ret else repr(inspect.Signature.empty))
+            for via, sgn in (('sigtools', sg), ('inspect', si)):
+                ps = universe.spec_from_sig(sgn)
+                got = (tuple(p for p in ps if p.kind != KWO), frozenset(p for p in ps if p.kind == KWO), repr(sgn.return_annotation))
+                if got != want:
+                    stats.fail('C18/A/method/advertised-%s' % ('return' if got[:2] == want[:2] else 'parameters'), dict(case, order=[list(x) for x in perm], form=form, via=via),
+                               'def m(%s): %s advertises %s -> %s on the %s via %s.signature; expected (%s)%s' % (
+                                   universe.spec_text(spec_m), desc, sgn, got[2], form, via, universe.spec_text(want_ps), ' -> R' if ret else ''))
+                    bad = True
+                    break
+            if bad:
+                break
+            if form == 'instance':
+                calls = []
+                b = cpbind.binder(universe.spec_view(want_ps))
+                for n in range(maxpos + 1):
+                    for r in range(len(names) + 1):
+                        for Kk in itertools.combinations(names, r):
+                            try:
+                                res = o(*[100 + i for i in range(n)], **{k: 'k_' + k for k in Kk})
+                                res = 'ok'
+                            except TypeError:
+                                res = 'TypeError'
+                            wantc = 'ok' if b.accepts(n, Kk) else 'TypeError'
+                            if any(p.kind == PO and p.name in Kk for p in want_ps) and any(p.kind == VK for p in want_ps):
+                                continue
+                            if res != wantc:
+                                stats.fail('C18/A/method/call', dict(case, order=[list(x) for x in perm], shape=[n, list(Kk)]),
+                                           'def m(%s): %s; instance call with %d positionals and %s gives %s, the advertised (%s) says %s' % (
+                                               universe.spec_text(spec_m), desc, n, list(Kk), res, universe.spec_text(want_ps), wantc))
+                                bad = True
+                                break
+                        if bad:
+                            break
+                    if bad:
+                        break
+        if not bad:
+            results.append(desc)
+    if len(results) >= 2 or any(w in ('Ks', 'Pe', 'Nr') for w, a in steps):
+        stats.nontriv_enum()
+        stats.sample('A/method', {'function': universe.spec_text(spec_m), 'orders': results})
+
+
 def shard_orders(arg):
     specs, = arg
     st = Stats()
     for spec in specs:
         for steps in step_sets(spec):
             check_orders(spec, steps, st)
+        if not any(p.kind == PO for p in spec):
+            for steps in method_step_sets(spec):
+                check_orders_method(spec, steps, st)
     return st
 
 
@@ -198,6 +357,9 @@ from sigtools import modifiers, specifiers, wrappers
 @wrappers.decorator
 def deco(func, *args, dp=False, **kwargs):
     return ('deco', dp, func(*args, **kwargs))
+
+def tf(x, y=2, *, z=3):
+    return ('tf', x, y, z)
 
 class Base(object):
     def __init__(self, marker):
@@ -227,6 +389,10 @@ class Base(object):
     @deco
     def dec(self, x, y=2):
         return (self.marker, 'dec', x, y)
+    # a function Python turns into a class method implicitly, under an emulate=True forger
+    @specifiers.forwards_to_function(tf, emulate=True)
+    def __class_getitem__(cls, a, *args, **kwargs):
+        return ('cgi', cls.__name__, a) + tf(*args, **kwargs)
     # forwards to an attribute that only exists later (set by the 'late' rule)
     @specifiers.forwards_to_method('late', emulate=True)
     def fwdl(self, a, *args, **kwargs):
@@ -386,6 +552,21 @@ class History(object):
             self.problems.append(('guard-not-empty', 'recursion guard holds %d object(s) after the retrievals' % len(specifiers.as_forged.currently_computing)))
             specifiers.as_forged.currently_computing.clear()
 
+    def classget(self, k):
+        """The implicit class method, retrieved for the first time in this history or not: same answers."""
+        cname = ('Base', 'Sub')[k % 2]
+        cls = self.g[cname]
+        self.log.append(['classget', k])
+        want_sig = '(a, x, y=2, *, z=3)'
+        want_call = repr(('cgi', cname, 0, 'tf', 1, 2, 3))
+        for attempt in (1, 2):
+            o = cls.__class_getitem__
+            got = (sig_text(inspect.signature, o), call_text(o, (0, 1), {}), call_text(lambda *a: cls[a], (0, 1), {}) if False else None)
+            if got[0] != want_sig or got[1] != want_call:
+                self.problems.append(('implicit-classmethod-differs', '%s.__class_getitem__, retrieval %d of this step: signature %s, call %s; expected %s, %s' % (
+                    cname, attempt, got[0], got[1], want_sig, want_call)))
+                return
+
     def redecorate(self, m):
         """Apply a modifier to a fresh function and install it on Sub: must behave like the model's."""
         from sigtools import modifiers
@@ -455,6 +636,7 @@ def st_history():
         st.tuples(st.just('drop'), st.integers(0, 3)),
         st.tuples(st.just('redecorate'), st.just('kw')),
         st.tuples(st.just('late'), st.integers(0, 3)),
+        st.tuples(st.just('classget'), st.integers(0, 1)),
     )
     return st.lists(op, min_size=2, max_size=30).map(lambda ops: [('create', 'Base')] + ops)
 
@@ -511,6 +693,10 @@ def machine_run(arg):
         @rule(k=st.integers(0, 3))
         def late(self, k):
             self.h.late(k)
+
+        @rule(k=st.integers(0, 1))
+        def classget(self, k):
+            self.h.classget(k)
 
         @invariant()
         def agrees_with_model(self):
@@ -582,7 +768,11 @@ def run(ctx):
 
 
 def replay(case, stats):
-    if case.get('part') == 'B':
+    if case.get('part') == 'A-method':
+        spec = tuple(Par(*p) for p in case['spec'])
+        spec = tuple(p._replace(default='1') if p.default is not None else p for p in spec)
+        check_orders_method(spec, [tuple(x) if not isinstance(x[1], list) else (x[0], x[1]) for x in case['steps']], stats)
+    elif case.get('part') == 'B':
         run_history(case['history'], stats)
     else:
         spec = tuple(Par(*p) for p in case['spec'])
